@@ -91,3 +91,148 @@ def files(ctx):
             exp = '{"i":0,"j":0,"v":1}\n{"i":1,"j":0,"v":3}\n{"i":2,"j":1,"v":4}\n'
             c.replay = {'files': ['1 [2', ',3] 4 '], 'expected': exp, 'actual': show(r['stdout'])}
             c.status = 'reproduced' if show(r['stdout']) != exp else 'unit'
+
+
+def file_sources(ctx):
+    """from_file and the directory loop of read_file.
+
+    files.untouched   from_file hands Reader::new the buffered, *unread* file under the file's name: between File::open and
+                      Reader::new nothing is called on the file or its buffer (a byte consumed there - a BOM skip, a peek - is
+                      a byte the tokenizer never sees, and only for file input); a file that cannot be opened is an error.
+    files.directory   every entry of a directory is read, in the order read_dir gives them, through the same index and
+                      process; the first failing entry (an unreadable entry or a failing read) ends the run with an error."""
+    run = ctx.run
+    fu = run.family('files.untouched', 'from_file gives the tokenizer the whole file: Reader::new gets BufReader(File::open(path)) and the path as name, and nothing else is called on the file or its buffer before; an open failure is returned')
+    fd = run.family('files.directory', 'read_file on a directory reads every entry in order with the same index and process and returns the first error (an unreadable entry, a failing read of an entry)')
+    run.bounds['file sources'] = 'from_file: open succeeds / fails; directory of 0..2 entries, each readable or not, each read succeeding or failing'
+    # ---- from_file
+    def s_open(ex, st, func, a, ty):
+        out = []
+        for good in (True, False):
+            s2 = st.clone(); s2.events.append(('open', origin(s2, a[0]), good))
+            out.append((s2, ok(s2, named(s2, 'FILE', 'File')) if good else err(s2, named(s2, 'ioerr', 'io::Error'))))
+        return out
+    def s_buf(ex, st, func, a, ty): return [(st, named(st, 'BUF(' + origin(st, a[0]) + ')', 'BufReader'))]
+    def s_reader_new(ex, st, func, a, ty):
+        nm = obj(st, a[1]); st.events.append(('reader_new', origin(st, a[0]), st.heap[nm.oid].get('from', origin(st, nm))))
+        return [(st, named(st, 'READER', 'Reader'))]
+    def s_to_str(ex, st, func, a, ty): return [(st, some(st, slot(st, named(st, 'STR(' + origin(st, a[0]) + ')', 'str'))))]
+    def s_opt_map_to_string(ex, st, func, a, ty):
+        o = obj(st, a[0]); n = named(st, st.fresh_name('name'), 'Option<String>'); st.heap[n.oid]['from'] = origin(st, st.heap[o.oid].get(('f', 'Some', 0), o)); return [(st, n)]
+    summ = [(r'File::open::<', s_open), (r'BufReader::<.*>::new$|BufReader::<.*>::with_capacity$', s_buf), (r'Reader::<.*>::new$', s_reader_new), (r'Path::to_str$', s_to_str),
+            (r'Option::<&str>::map::<', s_opt_map_to_string), (r'as Deref>::deref$', s_identity)]
+    ex = ctx.exec(summaries=summ, max_visits=10)
+    F = ex.find(r'^from_file$|^reader::from_file$')
+    st = State(); ex.new_frame(st, F, [slot(st, named(st, 'PATH', 'PathBuf'), 'path*')])
+    for d in ex.run(st):
+        if d.status == 'infeasible': continue
+        run.paths += 1; fu.obligations += 1; fu.witnesses += 1
+        why = None; touched = None
+        for e in d.events:
+            if e[0] == 'call':                       # an unmodelled call: does it get the file or its buffer?
+                for a_ in e[2]:
+                    try: o_ = origin(d, a_)
+                    except Exception: o_ = ''
+                    if 'FILE' in str(o_) or 'BUF(' in str(o_): touched = e[1]
+        opens = [e for e in d.events if e[0] == 'open']; news = [e for e in d.events if e[0] == 'reader_new']
+        rd = ex.discr(d, obj(d, d.ret)).t if d.status == 'returned' else None
+        if d.status != 'returned': why = f'{d.status} {d.notes[-1:]}'
+        elif touched: why = f'`{touched[-60:]}` is called on the file / its buffer before the tokenizer gets it'
+        elif len(opens) != 1 or opens[0][1] != 'PATH': why = 'does not open exactly the given path'
+        elif not opens[0][2]:
+            if news or not ex.valid(d, rd == 1)[0]: why = 'a file that cannot be opened is not an error'
+        elif len(news) != 1 or news[0][1] != 'BUF(FILE)' or 'PATH' not in str(news[0][2]): why = f'Reader::new does not get the buffered file under its name: {news}'
+        elif not ex.valid(d, rd == 0)[0]: why = 'an opened file is not returned as a reader'
+        if why is None: fu.discharged += 1
+        elif not any(c.role == 'from-file' for c in fu.candidates):
+            fu.candidates.append(Candidate(fu.name, 'from-file', 'from_file: ' + why, {}, unmodelled=(d.havoc or [None])[0] if not touched else touched))
+    if fu.discharged: fu.add_sample({'body': 'from_file', 'events': 'open(PATH) -> BufReader::new(FILE) -> Reader::new(BUF(FILE), name of PATH)', 'verdict': 'nothing else touches the file'})
+    run.absorb(ex)
+    # ---- the directory loop
+    def s_bool(name, val):
+        return lambda ex, st, func, a, ty: [(st, BoolV(z3.BoolVal(val)))]
+    for entries in ([], ['ok'], ['ok', 'ok'], ['bad'], ['ok', 'bad'], ['bad', 'ok']):
+        for dir_ok in (True, False):
+            if not dir_ok and entries: continue
+            def s_read_dir(ex, st, func, a, ty, entries=entries, dir_ok=dir_ok):
+                if not dir_ok: return [(st, err(st, named(st, 'ioerr:read_dir', 'io::Error')))]
+                items = [ok(st, named(st, f'ENTRY{i}', 'DirEntry')) if e == 'ok' else err(st, named(st, f'ioerr:entry{i}', 'io::Error')) for i, e in enumerate(entries)]
+                return [(st, ok(st, seqobj(st, 'ReadDir', items)))]
+            def s_path(ex, st, func, a, ty): return [(st, named(st, 'PATH(' + origin(st, a[0]) + ')', 'PathBuf'))]
+            def s_rec(ex, st, func, a, ty):
+                v = ex.fresh_value(st, ty, st.fresh_name('read_file')); dd = ex.discr(st, v); st.pc.append(z3.Or(dd.t == 0, dd.t == 1))
+                st.events.append(('read_file', origin(st, a[1]), ('ref', a[2].oid) if isinstance(a[2], RefV) else origin(st, a[2]), origin(st, a[3]), v)); return [(st, v)]
+            summ = [(r'Path::exists$', s_bool('exists', True)), (r'Path::is_dir$', s_bool('is_dir', True)), (r'read_dir::<', s_read_dir), (r'DirEntry::path$', s_path), (r'Master::<S>::read_file$', s_rec),
+                    (r'<ReadDir as IntoIterator>::into_iter$|as IntoIterator>::into_iter$', s_identity), (r'as Iterator>::next$', s_iter_next), (r'as Deref>::deref$', s_identity),
+                    (r'as From<.*>>::from$', lambda ex, st, f, a, t: [(st, named(st, st.fresh_name('converted'), t or 'err'))])]
+            ex = ctx.exec(summaries=summ, max_visits=12)
+            F = ex.find(r'^<impl at src/lib.rs:[^>]*>::read_file$')
+            st = State(); iref = slot(st, BV(z3.BitVec('index', 64)), 'INDEX')
+            ex.new_frame(st, F, [slot(st, named(st, 'SELF', 'Master'), 'self*'), slot(st, named(st, 'DIR', 'PathBuf'), 'dir*'), iref, slot(st, named(st, 'PROCESS', 'dyn Process'), 'process*')])
+            for d in ex.run(st):
+                if d.status == 'infeasible': continue
+                run.paths += 1; fd.obligations += 1; fd.witnesses += 1
+                why = None
+                if d.status != 'returned': why = f'{d.status} {d.notes[-1:]}'
+                else:
+                    rf = [e for e in d.events if e[0] == 'read_file']; rd = ex.discr(d, obj(d, d.ret)).t
+                    # expected: entries in order until the first bad entry or the first failing read
+                    exp_paths = []
+                    for i, e in enumerate(entries):
+                        if e == 'bad': break
+                        exp_paths.append(f'PATH(ENTRY{i})')
+                    got_paths = [e[1] for e in rf]
+                    if got_paths != exp_paths[:len(got_paths)]: why = f'entries are read as {got_paths}, the directory lists {exp_paths}'
+                    elif any(e[2] != ('ref', iref.oid) or e[3] != 'PROCESS' for e in rf): why = 'an entry is not read with the shared index and the process'
+                    else:
+                        fails = [ex.discr(d, e[4]).t == 1 for e in rf]
+                        anyfail = z3.Or(*fails) if fails else z3.BoolVal(False)
+                        # all listed entries read successfully and no bad entry / directory: Ok; otherwise Err
+                        complete = len(got_paths) == len(exp_paths)
+                        must_fail = (not dir_ok) or ('bad' in entries and complete)
+                        if not ex.valid(d, z3.Implies(anyfail, rd == 1))[0]: why = 'a failing read of an entry is not returned as an error (the run goes on)'
+                        elif fails and not ex.valid(d, z3.Implies(rd == 0, z3.Not(anyfail)))[0]: why = 'Ok although an entry failed'
+                        elif must_fail and not ex.valid(d, z3.Implies(z3.Not(anyfail), rd == 1))[0]: why = 'an unreadable directory / entry is not an error'
+                        elif not complete and not ex.valid(d, anyfail)[0]: why = f'only {got_paths} of {exp_paths} are read although nothing failed'
+                        elif len(fails) > 1 and not ex.valid(d, z3.Not(z3.Or(*fails[:-1])))[0]: why = 'entries are still read after one failed'
+                if why is None: fd.discharged += 1
+                elif not any(c.role == 'directory' for c in fd.candidates):
+                    fd.candidates.append(Candidate(fd.name, 'directory', f'read_file on a directory with entries {entries}: ' + why, {'entries': entries}, unmodelled=(d.havoc or [None])[0]))
+            run.absorb(ex)
+    if fd.discharged: fd.add_sample({'body': 'read_file (directory)', 'entries': "['ok', 'bad']", 'verdict': 'ENTRY0 is read, the unreadable ENTRY1 ends the run with an error'})
+    replay_sources(ctx, fu.candidates + fd.candidates)
+
+
+def replay_sources(ctx, cands):
+    """file input against stdin on the same bytes (a byte order mark and ordinary starts, under the reporting policies), and a
+    directory with an entry whose read fails"""
+    if not cands: return
+    import tempfile, os, subprocess
+    from .cli import run_jawk, show
+    exe = ctx.tree.binary()
+    found = None
+    with tempfile.TemporaryDirectory() as td:
+        for data in (b'\xef\xbb\xbf{"a":1} [2]\n3', b'\xef\xbb\xbf', b'\xff\xfe1 2', b'  {"a":1} 2', b'x 1'):
+            p = os.path.join(td, 'in.json'); open(p, 'wb').write(data)
+            for pol in ('stdout', 'panic', 'ignore'):
+                argv = ['--on-error', pol, '--style', 'consise', '--select', '.=v', '--select', '&started-at-char-number=c']
+                a = subprocess.run([exe] + argv + [p], stdout=subprocess.PIPE, stderr=subprocess.PIPE, timeout=20)
+                b = subprocess.run([exe] + argv, input=data, stdout=subprocess.PIPE, stderr=subprocess.PIPE, timeout=20)
+                strip = lambda o: [ln for ln in show(o).splitlines() if not ln.startswith('error:')]
+                nerr = lambda o: sum(1 for ln in show(o).splitlines() if ln.startswith('error:'))
+                if strip(a.stdout) != strip(b.stdout) or (a.returncode == 0) != (b.returncode == 0) or nerr(a.stdout) != nerr(b.stdout):
+                    found = {'what': 'the same bytes as a file and on stdin', 'bytes': repr(data), 'argv': argv, 'file': {'rc': a.returncode, 'stdout': show(a.stdout)[:300]}, 'stdin': {'rc': b.returncode, 'stdout': show(b.stdout)[:300]}}; break
+            if found: break
+        if not found:
+            d = os.path.join(td, 'dir'); os.mkdir(d)
+            open(os.path.join(d, 'a.json'), 'w').write('1'); open(os.path.join(d, 'c.json'), 'w').write('3')
+            try:
+                os.symlink('/proc/self/mem', os.path.join(d, 'b.json'))
+                r = subprocess.run([exe, '--style', 'consise', d], stdout=subprocess.PIPE, stderr=subprocess.PIPE, timeout=20)
+                if r.returncode == 0: found = {'what': 'a directory with an entry whose first read fails (a link to /proc/self/mem)', 'rc': r.returncode, 'stdout': show(r.stdout)[:200], 'stderr': show(r.stderr)[:200]}
+            except OSError:
+                pass
+    for c in cands:
+        if found: c.status = 'reproduced'; c.replay = found; c.unmodelled = None
+        elif c.unmodelled: c.status = 'inconclusive'
+        else: c.status = 'unit'
